@@ -105,6 +105,14 @@ pub fn c19_k_arbitrary_str_4() {
     str_case::<4, 6>(1000);
 }
 
+/// the smallest capacity at which a multi-byte character can straddle the cut (N = 2, 4 bytes of text available): cheap enough to finish
+/// even when the body of arbitrary_str grows (seed C19-5 re-validates a longer prefix and timed out the N = 4 harness)
+#[kani::proof]
+#[kani::unwind(26)]
+pub fn c19_k_arbitrary_str_2() {
+    str_case::<2, 4>(1000);
+}
+
 /// declared lengths 0..=5 (below, at and above the capacity), and fewer text bytes than declared
 #[kani::proof]
 #[kani::unwind(26)]
